@@ -572,6 +572,12 @@ func run(t *testing.T, sc Scenario) *core.Result {
 					<-closeDone
 					return
 				}
+				if !started {
+					// nothing to close yet (a closer scheduled for the instant at which the client starts
+					// may run first): leave the client to the final closer
+					stateMu.Unlock()
+					return
+				}
 				closeStarted = true
 				stateMu.Unlock()
 				defer close(closeDone)
